@@ -2,7 +2,7 @@ mod bitwin;
 mod decode;
 mod encode;
 
-use std::convert::TryInto;
+use std::convert::{TryFrom, TryInto};
 use std::fmt;
 use std::num::TryFromIntError;
 
@@ -44,6 +44,10 @@ pub fn decode<B: Buf>(size: u8, buf: &mut B) -> Result<Vec<u8>, Error> {
     let len: usize = len.try_into()?;
     if buf.remaining() < len {
         return Err(Error::UnexpectedEnd);
+    }
+    if flags & 1 != 0 {
+        // The Huffman decoder addresses the bits of its input with 32-bit positions
+        u32::try_from((len as u64).saturating_mul(8))?;
     }
 
     let payload = buf.copy_to_bytes(len);
